@@ -7,6 +7,7 @@ from __future__ import annotations
 import abc
 from dataclasses import dataclass
 import math
+import types as _types
 import typing as t
 
 from .util import flatten_union_args, is_broadcastable
@@ -50,7 +51,7 @@ class Tagged(ConvertAnnotation):
 
         from .converters import TaggedUnionConverter
         origin = t.get_origin(inner_type)
-        if origin is not t.Union:
+        if origin not in (t.Union, getattr(_types, 'UnionType', t.Union)):
             raise TypeError("'Tagged' must surround a 'Union' type.")
         types = tuple(flatten_union_args(t.get_args(inner_type)))
         return TaggedUnionConverter(types, tag=self.tag, external=self.external, handlers=handlers)
